@@ -98,7 +98,7 @@ def classify_th(op, impl):
     return (t[0],)
 
 
-def run_texthandlers(ctx):
+def run_texthandlers(ctx, prefixes=("C13:",)):
     """the REAL server-side text command handlers / Process() / value readers (harness mode `texthandlers`)"""
     exe = ctx.build_harness("server", only=TH_FILES)
     if not exe:
@@ -108,7 +108,7 @@ def run_texthandlers(ctx):
     if not outdir:
         return
     dis = ctx.diff(outdir, "texthandlers", classify=classify_th)
-    _monitors(ctx, outdir, "texthandlers", ("C13:",))
+    _monitors(ctx, outdir, "texthandlers", prefixes)
     if dis:
         d = dis[0]
         ctx.broken.append({"kind": "correspondence", "name": "value-reader model vs real LockResultCommandData readers",
@@ -117,7 +117,7 @@ def run_texthandlers(ctx):
     outdir = ctx.run_harness(exe, "callhandlers", 10 if ctx.tier == "quick" else 200, timeout=900)
     if outdir:
         ctx.diff(outdir, "callhandlers", classify=classify_th)
-        _monitors(ctx, outdir, "callhandlers", ("C13:",))
+        _monitors(ctx, outdir, "callhandlers", prefixes)
 
 
 THEOREMS_INLINE = ["Slock.C14I." + t for t in ("inline_decoders_eq", "inline_decoders_found", "inline_result_encoder_eq", "inline_encoders_found")]
@@ -134,11 +134,24 @@ def run_inline(ctx):
     if outdir:
         ctx.diff(outdir, "inline", classify=lambda op, impl: tuple(op.split(" ")[1:4]))
         _monitors(ctx, outdir, "inline", ("C14:",))
+    run_replybuf(ctx, ("C14:",))
+
+
+def run_replybuf(ctx, prefixes):
+    """value-carrying replies batched into the connection's writer buffer (harness mode `replybuf`; monitors only)"""
+    exe = ctx.build_harness("server", only=TH_FILES)
+    if not exe:
+        return
+    outdir = ctx.run_harness(exe, "replybuf", 10 if ctx.tier == "quick" else 400, timeout=600)
+    if outdir:
+        ctx.diff(outdir, "replybuf", classify=lambda op, impl: tuple(op.split(" ")[1:3]))
+        _monitors(ctx, outdir, "replybuf", prefixes)
 
 
 def run_text_c13(ctx):
     _run(ctx, ("C13:",), [("Slock.Properties.C13Text", THEOREMS_C13)], ["Slock.Properties.C13Text"])
     run_texthandlers(ctx)
+    run_replybuf(ctx, ("C13:",))
 
 
 def run(ctx):
